@@ -3,8 +3,8 @@ import KrroodVerif.Model.Descriptor
 import KrroodVerif.Drive.C15
 /-!
 C16 driver. Case: `(w <schema and objs as in C15> (field f) (obj a) (init x…) (ops (append x) (extend x…)
-(insert i x) (setitem i x) (assign x…) (assignSelf) (iadd x…) (iaddAlias x…)))` (`add`/`update` are accepted as
-synonyms of `append`/`extend` for set fields).
+(insert i x) (setitem i x) (assign x…) (assignSelf) (iadd x…) (iaddAlias x…) (remove x) (discard x) (pop) (pop i)
+(delitem i) (delslice i j) (clear)))` (`add`/`update` are accepted as synonyms of `append`/`extend` for set fields).
 Output `C[contents]|R[f:s:t,…]`: contents in order for a list field, sorted for a set field; relation triples sorted.
 `model=` is the code as it is (every recorded quirk is repaired: all quirks off); `before_fix=` /
 `before_slice_fix=` show earlier behaviour and are not admissible alternatives.
@@ -39,6 +39,13 @@ def parseCOp : Sexp → Option COp
   | .list [.atom "assignSelf"] => some .assignSelf
   | .list (.atom "iadd" :: xs) => do pure (.iadd (← parseNats xs))
   | .list (.atom "iaddAlias" :: xs) => do pure (.iaddAlias (← parseNats xs))
+  | .list [.atom "remove", x] => do pure (.remove (← x.asNat?))
+  | .list [.atom "discard", x] => do pure (.discard (← x.asNat?))
+  | .list [.atom "pop"] => some (.pop none)
+  | .list [.atom "pop", i] => do pure (.pop (some (← i.asInt?)))
+  | .list [.atom "delitem", i] => do pure (.delitem (← i.asInt?))
+  | .list [.atom "delslice", i, j] => do pure (.delslice (← parseBound i) (← parseBound j))
+  | .list [.atom "clear"] => some .clear
   | _ => none
 
 def showContents (isSet : Bool) (c : List Nat) : String :=
@@ -55,6 +62,15 @@ def elems : COp → List Nat
   | .assign xs => xs | .assignSelf => [] | .iadd xs => xs | .iaddAlias xs => xs
   | .assignView (.chain xs) => xs | .assignView _ => []
   | .setslice _ _ _ xs => xs
+  | .remove x => [x] | .discard x => [x]
+  | .pop _ => [] | .delitem _ => [] | .delslice _ _ => [] | .clear => []
+
+/-- the removing operations do not raise (Python semantics, along the specification run): `remove` finds an equal
+element, `pop` / `del c[i]` an index in range -/
+def removalsDefined (key : Nat → Nat) (isSet : Bool) (σ0 : CState) (ops : List COp) : Bool :=
+  (ops.foldl (fun (acc : CState × Bool) op =>
+    (specStepC key isSet acc.1 op,
+     acc.2 && (match op with | .setitem _ _ => true | _ => op.defined key acc.1.c))) (σ0, true)).2
 
 def parseTOp : Sexp → Option TOp
   | .list [.atom "adopt"] => some .adopt
@@ -113,8 +129,59 @@ def dropsOk (key : Nat → Nat) (isSet : Bool) (σ0 : CState) (raw : List Sexp) 
 def liveOnly (dead : List Nat) (g : List Fact) : List Fact :=
   g.filter fun r => !dead.contains r.2.1 && !dead.contains r.2.2
 
+/-- one entry of a constructor call: the managed fields of the class IN DATACLASS DECLARATION ORDER (the order in
+which the generated `__init__` assigns them), each with the keyword argument given or its default -/
+def parseCtorItem (S : Schema) (o : Nat) : Sexp → Option (List Op)
+  | .list [.atom "set", f, t] => do pure [.set1 (← f.asNat?) o (← t.asNat?)]
+  | .list (.atom "assign" :: f :: xs) => do pure [.assign (← f.asNat?) o (← parseNats xs)]
+  -- the default: `None` for a single-valued field (nothing is stored or asserted), an empty collection otherwise
+  | .list [.atom "default", f] => do
+      let f ← f.asNat?
+      pure (if S.kindOf f == .single then [] else [.assign f o []])
+  | _ => none
+
+/-- histories in the C15 grammar plus `(ctor o item…)`: instance `o` is created only now, by a constructor call that
+assigns its managed fields one after the other -/
+def parseHOp (S : Schema) : Sexp → Option (List Op)
+  | .list (.atom "ctor" :: o :: items) => do
+      let o ← o.asNat?
+      pure ((← items.mapM (parseCtorItem S o)).flatten)
+  | x => do pure [← parseOp x]
+
+/-- the instances created by a constructor call in the history, and whether nothing refers to them earlier -/
+def ctorsOk (raw : List Sexp) (S : Schema) : Bool :=
+  (raw.foldl (fun (acc : List Nat × Bool) x =>
+    match x with
+    | .list (.atom "ctor" :: o :: _) => (match o.asNat? with | some o => (acc.1.filter (· != o), acc.2) | none => (acc.1, false))
+    | _ => match parseHOp S x with
+      | some ops => (acc.1, acc.2 && (asserted ops).all fun r => !acc.1.contains r.2.1 && !acc.1.contains r.2.2)
+      | none => (acc.1, false))
+    (raw.filterMap (fun x => match x with | .list (.atom "ctor" :: o :: _) => o.asNat? | _ => none), true)).2
+
 def run (s : Sexp) : String :=
   match s with
+  | .list (.atom "hc" :: items) =>
+    -- writes whose inference reaches the written instance's own fields (transitive fields, super-property fields of
+    -- the same instance, constructors that assign several managed fields): graph AND backing fields, the C15 model
+    let raw := (Sexp.field? items "ops").getD []
+    match parseSchema items, parseWorld items with
+    | some S, some W =>
+      match raw.mapM (parseHOp S) with
+      | some opss =>
+        let ops := opss.flatten
+        if !(inRange S W ops && ops.all (·.wellKinded S.kindOf) && ctorsOk raw S &&
+             W.rt.all (fun r => match r with | some x => x < W.size | none => true))
+        then "error=ill-formed-case" else
+        let σ := runModel S W ops
+        -- a re-assignment that drops an earlier ASSERTED element is the open finding F-C15-3 (no retraction), which
+        -- is about C15: this family stays outside it
+        if σ.clob then "error=ill-formed-case" else
+        let cl := closure (schemaRules S W) (fuelFor S W) (asserted ops)
+        let spec := if cl.2 then showRels cl.1 ++ "|" ++ showFields S W [] (fun f o => targetsOf cl.1 f o) cl.1
+                    else "spec-diverged"
+        s!"model={showRels σ.g ++ "|" ++ showFields S W [] (fun f o => σ.st f o) σ.g}\tspec={spec}\ttrig="
+      | none => "error=bad-case"
+    | _, _ => "error=bad-case"
   | .list (.atom "w" :: items) =>
     let raw := (Sexp.field? items "ops").getD []
     match parseSchema items, parseWorld items, (raw.filter (!isEnvEvent ·)).mapM parseCOp,
@@ -129,7 +196,8 @@ def run (s : Sexp) : String :=
       let key := parseKey items
       let dead := droppedOf raw
       let wf := wf && !dead.contains a &&
-        dropsOk key isSet (specC key isSet ⟨[], []⟩ (init.map .append)) raw
+        dropsOk key isSet (specC key isSet ⟨[], []⟩ (init.map .append)) raw &&
+        removalsDefined key isSet (specC key isSet ⟨[], []⟩ (init.map .append)) ops
       if !wf then "error=ill-formed-case" else
       let R := schemaRules S W
       let fuel := fuelFor S W
